@@ -20,6 +20,21 @@ def entryOf (j : Json) : Except String (String × Int) := do
   | _ => throw "expected [key, value]"
 -- --- end T2
 
+-- --- T6: glue for the T6 prelude functions
+def excJ (e : Exc) : Json := Json.str (match e with
+  | .ValueError => "ValueError" | .TypeError => "TypeError" | .KeyError => "KeyError"
+  | .NotImplementedError => "NotImplementedError" | .IndexError => "IndexError" | .OutOfFuel => "OutOfFuel")
+def iosJ : IntOrStr → Json
+  | .int n => Json.mkObj [("i", intJ n)]
+  | .str s => Json.mkObj [("s", strJ s)]
+def iosOf (j : Json) : Except String IntOrStr :=
+  match j.getObjVal? "i" with
+  | .ok v => do pure (.int (← intOfJson v))
+  | .error _ => do pure (.str (← strOf (← field j "s")))
+def ordJ : Option Ordering → Json
+  | some .lt => "lt" | some .eq => "eq" | some .gt => "gt" | none => "TypeError"
+-- --- end T6
+
 def handle (op : String) (j : Json) : Except String Json := do
   match op with
   | "bin" => pure (strJ (bin (← intOfJson (← field j "n"))))
@@ -81,6 +96,29 @@ def handle (op : String) (j : Json) : Except String Json := do
                       ("gets", Json.arr (probes.map (fun k => intJ (counterGet c k))).toArray)])
   | "t2_formatb" => pure (strJ (formatB (← intOfJson (← field j "n"))))
   -- --- end T2
+  -- --- T6
+  | "resplit" => pure (Json.arr ((reSplitDigits (← strOf (← field j "s"))).map strJ).toArray)
+  | "isdigit" => pure (Json.bool (isdigit (← strOf (← field j "s"))))
+  | "intdigits" => pure (intJ (intOfDigits (← strOf (← field j "s"))))
+  | "splitchar" => match ← strOf (← field j "c") with
+    | [c] => pure (Json.arr ((splitChar (← strOf (← field j "s")) c).map strJ).toArray)
+    | _ => throw "splitchar expects a one-character separator"
+  | "intparse" => match intParse (← strOf (← field j "s")) with
+    | .ok v => pure (intJ v)
+    | .error e => pure (excJ e)
+  | "dictget" =>
+    let ps ← listOfJson (fun p => do
+      match (← arrOfJson p) with
+      | [a, b] => pure ((← strOf a), (← intOfJson b))
+      | _ => throw "pair expected") (← field j "pairs")
+    match dictGet (ps : Dict Str Int) (← strOf (← field j "k")) with
+    | .ok v => pure (intJ v)
+    | .error e => pure (excJ e)
+  | "reduce" => match reduce (fun (a b : Int) => 2 * a - b) (← listOfJson intOfJson (← field j "xs")) with
+    | .ok v => pure (intJ v)
+    | .error e => pure (excJ e)
+  | "cmpkeys" => pure (ordJ (cmpKeys (← listOfJson iosOf (← field j "a")) (← listOfJson iosOf (← field j "b"))))
+  -- --- end T6
   | _ => throw s!"unknown prelude op {op}"
 
 end OQ.PY.Driver
